@@ -41,6 +41,7 @@ type act struct {
 	Dport   int    `json:"dport"`
 	Variant string `json:"variant"`
 	Flow    bool   `json:"flow"`
+	Friends string `json:"friends"`
 	ToTun   bool   `json:"totun"`
 	SrcIsMe bool   `json:"srcisme"`
 	Dst     string `json:"dst"`
@@ -49,13 +50,16 @@ type act struct {
 
 var names = map[string]int{"me": 1, "f1": 2, "f2": 3, "o1": 4, "o2": 5}
 
-func storeFor(svcs []svc, isolate bool) config.Store {
+func storeFor(svcs []svc, isolate bool, friends ...string) config.Store {
 	ids := mesh.Identities(5)
 	ip := func(n string) string { return ids[names[n]-1].IP.String() }
 	st := config.Store{}
 	st.Router.Listen = []string{"tcp:47369"}
 	st.Router.Isolate = isolate
 	st.FriendConfigs = []config.FriendConfig{{Name: "alice", IP: ip("f1")}, {Name: "bob", IP: ip("f2")}}
+	if len(friends) > 0 && friends[0] == "none" {
+		st.FriendConfigs = nil
+	}
 	for i, s := range svcs {
 		url := s.Scheme + "://"
 		if s.Port != 0 {
@@ -84,9 +88,9 @@ type scene struct {
 	me *world.Node
 }
 
-func newScene(svcs []svc, isolate bool) (*scene, error) {
+func newScene(svcs []svc, isolate bool, friends string) (*scene, error) {
 	// the configuration must go through the real (non-test) parser first
-	st := storeFor(svcs, isolate)
+	st := storeFor(svcs, isolate, friends)
 	st.Router.Address = mesh.Identities(5)[0].Store()
 	if _, err := st.Parse(); err != nil {
 		return nil, err
@@ -94,7 +98,7 @@ func newScene(svcs []svc, isolate bool) (*scene, error) {
 	edges := []mesh.Edge{{A: 1, B: 2, LA: 21, LB: 12}, {A: 1, B: 3, LA: 31, LB: 13}, {A: 1, B: 4, LA: 41, LB: 14}, {A: 1, B: 5, LA: 51, LB: 15}}
 	ms, err := mesh.New(5, edges, mesh.Opts{WithTun: func(i int) bool { return i == 1 }, Cfg: func(i int) config.Store {
 		if i == 1 {
-			return storeFor(svcs, isolate)
+			return storeFor(svcs, isolate, friends)
 		}
 		return config.Store{}
 	}})
@@ -231,7 +235,9 @@ func (s *scene) outbound(a act) (toMesh bool) {
 	return
 }
 
-func cfgKey(svcs []svc, isolate bool) string { return fmt.Sprintf("%v|%v", svcs, isolate) }
+func cfgKey(svcs []svc, isolate bool, friends string) string {
+	return fmt.Sprintf("%v|%v|%s", svcs, isolate, friends)
+}
 
 func main() { vf.Main("C06", "model_checking", run) }
 
@@ -262,7 +268,10 @@ func run(c *vf.Ctx) {
 			}
 			continue
 		}
-		k := cfgKey(a.Svcs, a.Isolate)
+		if a.Friends == "" {
+			a.Friends = "both"
+		}
+		k := cfgKey(a.Svcs, a.Isolate, a.Friends)
 		if _, ok := byCfg[k]; !ok {
 			order = append(order, k)
 		}
@@ -285,7 +294,7 @@ func run(c *vf.Ctx) {
 		// one scene per configuration; flow cases get their own scene (they create connection state)
 		var s *scene
 		fresh := func() *scene {
-			sc, err := newScene(a0.Svcs, a0.Isolate)
+			sc, err := newScene(a0.Svcs, a0.Isolate, a0.Friends)
 			if err != nil {
 				return nil
 			}
@@ -319,7 +328,7 @@ func run(c *vf.Ctx) {
 						}
 						al := s.me.Cfg.CheckInboundTrafficPolicy(uint8(pr), uint16(po), s.node(who).ID.IP)
 						c.Eval(1)
-						events = append(events, map[string]any{"ev": "policy", "svcs": a0.Svcs, "who": who, "proto": pr, "port": po, "allowed": al})
+						events = append(events, map[string]any{"ev": "policy", "svcs": a0.Svcs, "who": who, "proto": pr, "port": po, "allowed": al, "friends": a0.Friends})
 					}
 				}
 			}
@@ -334,7 +343,7 @@ func run(c *vf.Ctx) {
 				toTun, panicked := sc.inbound(a)
 				c.Eval(1)
 				events = append(events, map[string]any{"ev": "in", "svcs": a.Svcs, "isolate": a.Isolate, "who": a.Who, "proto": a.Proto, "dport": a.Dport,
-					"variant": a.Variant, "flow": a.Flow, "totun": toTun, "panic": panicked})
+					"variant": a.Variant, "flow": a.Flow, "friends": a.Friends, "totun": toTun, "panic": panicked})
 			case "out":
 				toMesh := fresh().outbound(a)
 				c.Eval(1)
